@@ -11,7 +11,7 @@ from vk import common
 PROPERTY = "C18"
 LEVEL = "exploration"
 RULE = ("exhaustive: 1..4 caches x all 3^n assignments of {miss, hit, hit with a falsy non-None value} x reads {get, gets, get_many, gets_many} and writes {set, add, "
-        "replace, append, prepend, cas, delete, incr, decr, touch, flush_all} x default and non-default arguments x order given at construction or changed afterwards through .caches; plus real "
+        "replace, append, prepend, cas, delete, incr, decr, touch, flush_all} x default and non-default arguments x order given at construction or changed afterwards through .caches; plus sessions of 12 calls on one FallbackClient while the caches' contents change; plus real "
         "Clients over reference servers as caches (get/get_many/gets_many and all writes). Non-trivial = >=2 caches; distinct by the full case.")
 ASSUMPTIONS = [
     "'the configured order' is the current content of the public caches attribute (inserting a new primary, assigning a new list, "
@@ -177,6 +177,59 @@ def run_scripted(res, fallback, n, hits, reconf=None):
             res.case(case if n >= 2 else None)
 
 
+def run_session(res, fallback, n, seed):
+    """one FallbackClient, many calls, the caches' contents changing in between: every call starts again at the first
+    cache and writes keep going to the first cache, whatever earlier calls found"""
+    import random
+    rng = random.Random(seed)
+    log = []
+    caches = [Cache(i, False, log) for i in range(n)]
+    fc = fallback.FallbackClient(list(caches))
+    steps = []
+    for step in range(12):
+        hits = tuple(rng.choice((False, True, "falsy")) for _ in range(n))
+        for c, h in zip(caches, hits):
+            c.hit = h
+            c.answers = {}
+        op = rng.choice(READS + list(WRITES)[:4])
+        steps.append((hits, op))
+        case = ("session", n, seed, step)
+        del log[:]
+        try:
+            if op in READS:
+                arg = ["k1", "k2"] if op.endswith("many") else "k1"
+                r = getattr(fc, op)(arg)
+            else:
+                args, kwargs, want = WRITES[op][0]
+                getattr(fc, op)(*args, **kwargs)
+        except Exception as e:
+            res.violation("session:raises:" + op, "step %d %s raised %r after %r" % (step, op, e, steps), case)
+            return
+        res.count("cache_calls_logged", len(log))
+        res.count("session_steps")
+        consulted = [e[0] for e in log]
+        if op in READS:
+            res.count("reads_checked")
+            first = next((i for i in range(n) if hits[i]), None)
+            want_consulted = list(range(n if first is None else first + 1))
+            if consulted != want_consulted:
+                res.violation("session:wrong-caches-consulted:" + op, "step %d of %r: consulted %r, expected %r"
+                              % (step, steps, consulted, want_consulted), case)
+                return
+            if first is not None and r is not caches[first].answers.get(op):
+                res.violation("session:not-first-hit:" + op, "step %d of %r: returned %r" % (step, steps, r), case)
+                return
+            if first is None and r:
+                res.violation("session:all-miss-returns-value:" + op, "step %d of %r: returned %r" % (step, steps, r), case)
+                return
+        else:
+            res.count("writes_checked")
+            if consulted != [0]:
+                res.violation("session:write-reaches-fallback:" + op, "step %d of %r: caches touched %r" % (step, steps, consulted), case)
+                return
+    res.case(("session", n, seed))
+
+
 def run_real(res, fallback, n, hits):
     """Real Clients over reference servers: server i holds key k1 iff hits[i]."""
     from vk.fakenet import FakeNet
@@ -251,6 +304,11 @@ def shard(tier, seed, idx, n_sh):
                     res.count("reconfigured_clients")
             if "falsy" not in hits:
                 run_real(res, fallback, n, hits)
+    for si in range(200 if tier == "quick" else 2000):
+        work += 1
+        if work % n_sh != idx:
+            continue
+        run_session(res, fallback, 2 + si % 3, seed * 100003 + si)
     res.extra["exhaustive"] = True
     res.extra["exhaustive_part"] = "1..4 caches x all hit/miss assignments x all reads and writes"
     return res
@@ -260,7 +318,9 @@ def replay(case):
     res = common.Result()
     from pymemcache import fallback
     n, hits = case[1], case[2]
-    if case[0].startswith("real"):
+    if case[0] == "session":
+        run_session(res, fallback, case[1], case[2])
+    elif case[0].startswith("real"):
         run_real(res, fallback, n, hits)
     else:
         run_scripted(res, fallback, n, hits, case[-1] if case[-1] in ("insert-primary", "assign", "drop-old-primary") else None)
